@@ -154,7 +154,7 @@ def vh(ctx, family, scenarios, extra=None, timeout=1800, race=False, env=None, n
         if p.returncode == 0:
             return evs + part, "".join(errs)
         if not resilient:
-            raise Infra("vh %s exited %d:\n%s" % (family, p.returncode, p.stderr[-4000:]))
+            raise Infra("vh %s exited %d:\n%s\n[...]\n%s" % (family, p.returncode, p.stderr[:1500], p.stderr[-2500:]))
         crashes += 1
         starts = [e for e in part if e.get("e") in ("start", "begin")]
         if not starts or crashes > 40:
